@@ -224,8 +224,7 @@ static std::string inverse_json( SDAI_Application_instance * se ) {
     for( auto it = m.begin(); it != m.end(); ++it ) {
         const Inverse_attribute * ia = it->first;
         std::ostringstream v;
-        const TypeDescriptor * td = ia->ReferentType();
-        bool aggr = td && ( td->Type() == SET_TYPE || td->Type() == BAG_TYPE || td->Type() == LIST_TYPE || td->Type() == ARRAY_TYPE || td->Type() == AGGREGATE_TYPE );
+        bool aggr = ia->IsAggrType() != 0;   // the same rule the generated accessors follow
         v << "{\"aggr\":" << ( aggr ? "true" : "false" ) << ",\"ids\":[";
         if( aggr ) {
             EntityAggregate * ea = it->second.a;
